@@ -8,6 +8,7 @@ graph: the algorithms are modelled once over the slot structure `Topo`), every s
 every time step, any number of steps.
 -/
 import Strengths.Proofs.GraphConserve
+import Strengths.Proofs.TauLeapClosed
 import Strengths.Proofs.Grid
 import Strengths.Model.CodeSnapshot
 import Strengths.Gen.Stoch
@@ -81,7 +82,16 @@ theorem gillespie_conserves {e : EngIn} {c : Nat → Rat} (hv : EngValid e) (hc 
 neighbour has count 0, which `Compute_nevt` guarantees without drawing) -/
 theorem tauleap_conserves {e : EngIn} {c : Nat → Rat} (hc : Cons e.net c) (hf : Free e c) (htopo : TopoOK e)
     (k : Counts) (hw : WallZero e k) (x : State) : total e c (tauLeapApply e k x) = total e c x :=
-  Strengths.tauleap_conserves hc hf htopo k hw x
+  -- corollary of the closed form of `Apply_nevt` (C07.tauleap_closed_form): reactions cancel by `Cons`, and summed
+  -- over the space arrivals = departures (an independent, step-by-step proof is `Strengths.tauleap_conserves`)
+  tauleap_conserves_of_closed_form hc hf htopo k hw x
+
+/-- every molecule that leaves a cell arrives in a cell -/
+theorem tauleap_arrivals_eq_departures (e : EngIn) (k : Counts) (htopo : TopoOK e) (hw : WallZero e k) (s : Nat) :
+    ∑ i ∈ range e.topo.nCells, ∑ j ∈ range e.topo.nCells, ∑ m ∈ range (e.topo.nSlots j),
+        (if e.topo.nbr j m = some i then (k.nd j s m : Rat) else 0) =
+    ∑ j ∈ range e.topo.nCells, ∑ m ∈ range (e.topo.nSlots j), (k.nd j s m : Rat) :=
+  arrivals_eq_departures e k htopo hw s
 
 /-- `diffusion_total_zero` (deterministic engine): the sum over all half-edges of the flux vanishes -/
 theorem diffusion_total_zero {e : EngIn} (P : Pairing e) (x : State) (s : Nat) :
